@@ -213,6 +213,7 @@ func (c *converter) syncFull() {
 	}
 	c.fullSyncAnnotations()
 	c.syncEndpoints()
+	c.removeUnusedAuthBackends()
 }
 
 func (c *converter) syncPartial() {
@@ -273,6 +274,26 @@ func (c *converter) syncPartial() {
 	}
 	c.partialSyncAnnotations()
 	c.syncChangedEndpoints()
+	c.removeUnusedAuthBackends()
+}
+
+// removeUnusedAuthBackends releases the auth proxies, and the backends of
+// external auth services, that the last host or backend using them left behind
+func (c *converter) removeUnusedAuthBackends() {
+	usedNames := c.haproxy.Backends().BuildUsedAuthBackends()
+	for _, host := range c.haproxy.Hosts().Items() {
+		for _, path := range host.Paths {
+			if path.AuthExt != nil && path.AuthExt.AuthBackendName != "" {
+				usedNames[path.AuthExt.AuthBackendName] = true
+			}
+		}
+	}
+	c.haproxy.Frontend().RemoveAuthBackendExcept(usedNames)
+	usedTargets := map[string]bool{}
+	for _, bind := range c.haproxy.Frontend().AuthProxy.BindList {
+		usedTargets[bind.Backend.String()] = true
+	}
+	c.haproxy.Backends().RemoveAuthBackendExcept(usedTargets)
 }
 
 // trackAddedIngress add tracking hostnames and backends to new ingress objects
